@@ -25,6 +25,7 @@ type Solver struct {
 	timeout int // ms per query
 	seed    int
 	logf    io.Writer
+	Tag     string
 }
 
 func solverArgv() []string {
@@ -168,7 +169,7 @@ func (s *Solver) Check(script string, getvals []string) (string, map[string]stri
 		return "unknown", nil
 	}
 	if s.logf != nil {
-		fmt.Fprintf(s.logf, "; -> %s %.3fs\n", resp, d.Seconds())
+		fmt.Fprintf(s.logf, "; -> %s %.3fs [%s]\n", resp, d.Seconds(), s.Tag)
 	}
 	switch resp {
 	case "sat":
